@@ -454,6 +454,9 @@ func (web *webAPI) handleInstallConfigure(w http.ResponseWriter, r *http.Request
 	// functions potentially restart the HTTPS server.
 	err = startMods(r.Context(), web.baseLogger, web.tlsManager)
 	if err != nil {
+		// The installation hasn't taken place, so there must be no user who
+		// has come from it either, while the installation API is still open.
+		globalContext.auth.removeUser(u)
 		globalContext.firstRun = true
 		copyInstallSettings(config, curConfig)
 		aghhttp.Error(r, w, http.StatusInternalServerError, "%s", err)
@@ -463,6 +466,7 @@ func (web *webAPI) handleInstallConfigure(w http.ResponseWriter, r *http.Request
 
 	err = config.write(web.tlsManager)
 	if err != nil {
+		globalContext.auth.removeUser(u)
 		globalContext.firstRun = true
 		copyInstallSettings(config, curConfig)
 		aghhttp.Error(r, w, http.StatusInternalServerError, "Couldn't write config: %s", err)
